@@ -915,7 +915,7 @@ class QCumulantFlow(FlowInterface.FlowInterface):
             if not isinstance(poi_pdg, (list, np.ndarray)):
                 raise TypeError("poi_pdg has to be list or np.ndarray")
             for pdg in poi_pdg:
-                if not isinstance(pdg, int):
+                if not isinstance(pdg, (int, np.integer)):
                     raise TypeError("poi_pdg elements must be integers")
         if flow_as_function_of not in ["pT", "rapidity", "pseudorapidity"]:
             raise ValueError(
